@@ -434,7 +434,8 @@ Value Endgame<kKBPsKB>::strongSideScore(const Position& position) const
     const Square furthestPawnSq = normalize(most_advanced_pawn(pawns, strongSide), strongSide);
     const Square weakKingSq = normalize(position.piece_position(make_piece(weakSide, KING)), strongSide);
     const Square strongBishopSq = normalize(position.piece_position(make_piece(strongSide, BISHOP)), strongSide);
-    const Square weakBishopSq = normalize(position.piece_position(make_piece(weakSide, BISHOP)), strongSide);
+    const Square weakBishopRealSq = position.piece_position(make_piece(weakSide, BISHOP));
+    const Square weakBishopSq = normalize(weakBishopRealSq, strongSide);
 
     /*
      * In draw cases try to not lose pawns and push them if possible
@@ -472,13 +473,16 @@ Value Endgame<kKBPsKB>::strongSideScore(const Position& position) const
             {
                 const Square block1Sq = make_square(Rank(rank(furthestPawnSq) + 1), file1);
                 const Square block2Sq = make_square(rank(furthestPawnSq), file2);
+                // the occupancy is the real board, so the bishop's rays are walked from its real square
+                // and tested against the real (de-normalised) blocking squares
+                const Bitboard weakBishopAttacks = slider_attack<BISHOP>(weakBishopRealSq, position.pieces());
                 if (weakKingSq ==  block1Sq &&
                         (weakBishopSq == block2Sq ||
-                         slider_attack<BISHOP>(weakBishopSq, position.pieces()) & square_bb(block2Sq)))
+                         weakBishopAttacks & square_bb(normalize(block2Sq, strongSide))))
                     return VALUE_POSITIVE_DRAW + 10 * Value(popcount(pawns)) + 2 * Value(rank(furthestPawnSq));
                 if (weakKingSq == block2Sq &&
                         (weakBishopSq == block1Sq ||
-                         slider_attack<BISHOP>(weakBishopSq, position.pieces()) & square_bb(block1Sq)))
+                         weakBishopAttacks & square_bb(normalize(block1Sq, strongSide))))
                     return VALUE_POSITIVE_DRAW + 10 * Value(popcount(pawns)) + 2 * Value(rank(furthestPawnSq));
             }
         }
